@@ -112,9 +112,19 @@ for nm, hdr, sig, extra in (
         ('sa_rep', r'constexpr\s+slice\s+rep\(slice s,\s*size32_t n\)', 'struct utils__slice sa_rep(struct dfa_size_analyzer* self, struct utils__slice s, size32_t n)', [])):
     F(nm, hdr, sig, rules=extra + [SAM, SL], scope=SA)
 
+for nm, params, csig in (('star', r'slice s', 'struct utils__slice sa_star(struct dfa_size_analyzer* self, struct utils__slice s)'),
+                         ('plus', r'slice s', 'struct utils__slice sa_plus(struct dfa_size_analyzer* self, struct utils__slice s)'),
+                         ('opt', r'slice s', 'struct utils__slice sa_opt(struct dfa_size_analyzer* self, struct utils__slice s)'),
+                         ('cat', r'slice s1,\s*slice s2', 'struct utils__slice sa_cat(struct dfa_size_analyzer* self, struct utils__slice s1, struct utils__slice s2)'),
+                         ('alt', r'slice s1,\s*slice s2', 'struct utils__slice sa_alt(struct dfa_size_analyzer* self, struct utils__slice s1, struct utils__slice s2)')):
+    F('sa_' + nm, r'constexpr\s+slice\s+%s\(%s\)' % (nm, params), csig, scope=SA, rules=[S(r'(?<![\w.])add\(', 'sa_add(self, ', min=0, name='R4:add'), SAM, SL])
+F('sa_primary_char', r'constexpr\s+slice\s+primary_char\(char\)', 'struct utils__slice sa_primary_char(struct dfa_size_analyzer* self, char c)', scope=SA, rules=[S(r'(?<![\w.])prim\(\)', 'sa_prim(self)', name='R4:prim')])
+F('sa_primary_subset', r'constexpr\s+slice\s+primary_subset\(char_subset&&\)', 'struct utils__slice sa_primary_subset(struct dfa_size_analyzer* self)', scope=SA, rules=[S(r'(?<![\w.])prim\(\)', 'sa_prim(self)', name='R4:prim')])
+
+SMALL = os.environ.get('VX_UNIT_VARIANT') == 'small'
 PRELUDE = r'''
 int vx_thrown;
-#define PH_DFA 8
+#define PH_DFA %d''' % (4 if SMALL else 8) + r'''
 struct source_point { size32_t line; size32_t column; };
 struct match_options { bool verbose; };
 struct recognized_term { size16_t term_idx; vx_rt_len_t len; };   /* member type from the real declaration (R16) */
@@ -158,30 +168,4 @@ UNIT.facts = [r'constexpr bool test\(size_t idx\) const \{ return data\.test\(id
               r'using dfa = stdex::cvector<dfa_state<N>, N>;', PC.FACTS[-1], PC.FACTS[5]]
 UNIT.typedefs = PC.RT_TYPEDEFS
 apply_spec(UNIT.fns, os.path.join(HERE, '..', 'contracts', 'dfa.spec'))
-
-
-from vx import native as _N
-
-
-def _twin_sa_rep(o):
-    v = _N.trace_vals(o, 'h_sa_rep')
-    size = _N.to_int(v.get('a.size'), 0); st = _N.to_int(v.get('x.start'), 0); n_ = _N.to_int(v.get('x.n'), 2); n = _N.to_int(v.get('n'), 0)
-    return _N.TWIN_HEAD + """
-int main() {
-    regex::dfa_size_analyzer a;
-    // bring the analyser to the counterexample's size by allocating primaries (size is private; prim() adds 2)
-    uint32_t target = %uu; for (uint32_t k = 0; k + 2 <= target; k += 2) a.primary_char('x');
-    utils::slice s{ %uu, %uu }; uint32_t n = %uu;
-    utils::slice before = a.primary_char('y');           // before.start == size before
-    utils::slice r = a.rep(s, n);
-    utils::slice after = a.primary_char('z');            // after.start == size after rep
-    uint32_t grown = after.start - (before.start + 2);
-    uint32_t want_n = (n == 0) ? s.n : s.n * n, want_grown = (n == 0) ? 0 : s.n * (n - 1);
-    std::printf("rep({%%u,%%u}, %%u) -> {%%u,%%u}, size grew by %%u; specified {%%u,%%u}, growth %%u\\n", s.start, s.n, n, r.start, r.n, grown, s.start, want_n, want_grown);
-    return (r.start == s.start && r.n == want_n && grown == want_grown) ? 0 : 1;
-}""" % (size, st, n_, n)
-
-
-for _f in UNIT.fns:
-    if _f.name == 'sa_rep':
-        _f.twin = _twin_sa_rep
+# (dfa_builder::rep: its job finishes neither at 8 nor at 4 states within 25 min; the drafted contract stays in dfa.spec without a harness)
